@@ -50,7 +50,8 @@ F_NESTED = 'C12-nested-mask-sentinel-out-of-range'
 
 
 def plan(tier, seed):
-    n = NCASES[tier]
+    import os
+    n = max(CHUNK, int(NCASES[tier] * float(os.environ.get('VERIF_SCALE', '1') or 1)))  # VERIF_SCALE: tools/planted.py
     return [dict(start=i, stop=min(n, i + CHUNK)) for i in range(0, n, CHUNK)]
 
 
@@ -266,7 +267,12 @@ def _execute(case, res, T):
     scheme, sdeg = case['sample']
     if T.factors:
         return execute_product(case, res, mon, T, B, prom)
-    S = T.topo.sample(scheme, sdeg)
+    try:
+        S = T.topo.sample(scheme, sdeg)
+    except Exception as e:
+        # building a sample is not this property's subject (C09): counted, no verdict
+        res.count('sample_not_built/' + type(e).__name__)
+        return
     V = S.eval(B)
     nelems = len(T.topo)
 
@@ -798,6 +804,7 @@ def finalize(m, tier, seed):
                construction_failed_notes=sorted(m.sets.get('construction_failed', ()))[:20], refusal_messages=sorted(m.sets.get('refusal_messages', ()))[:25],
                accepted_outside_model=c.get('accepted_outside_model', 0), accepted_although_refusal_expected=c.get('accepted_although_refusal_expected', 0),
                topology_not_built={k[19:]: v for k, v in c.items() if k.startswith('topology_not_built/')},
+               sample_not_built={k[17:]: v for k, v in c.items() if k.startswith('sample_not_built/')},
                topology_build_errors=sorted(m.sets.get('topology_build_errors', ()))[:10],
                float_compares=c.get('float_compares', 0), float_marginal=c.get('float_marginal', 0),
                cases_skipped_deadline=c.get('cases_skipped_deadline', 0), nontrivial=c.get('nontrivial', 0))
